@@ -24,7 +24,8 @@ RULE = ("Hypothesis-generated sequences of read operations only (item access, ge
         "BYSTANDER object on a second file that is mutated (and, for buffered classes, capacity changes "
         "that force flushes) while the watched object is only read, and an outside writer that "
         "re-stores the watched file with the same data in another textual form (key order, "
-        "whitespace); the outside writer may also DELETE the watched file after it was read, and the "
+        "whitespace); the outside writer may also DELETE the watched file after it was read (optionally "
+        "leaving a complete '._<uuid>_<name>' temporary file of an interrupted atomic write behind), and the "
         "flush of the modified bystander may fail with an injected I/O error, after which a buffered "
         "session that only reads must write nothing to any file. Non-trivial = >=3 reads "
         "incl. one on a nested child, or a context entry+exit around reads, or a missing resource; "
@@ -89,6 +90,15 @@ class ReadOnlyWorld(BufWorld):
         self.removed = True
         audit.stop()
         os.remove(r.path)
+        if s.get("leftover"):
+            # ... and what a writer that crashed between writing its temporary file and renaming it
+            # leaves behind: a complete '._<uuid4>_<name>' file next to the missing target
+            import json
+            import uuid
+            tmp = os.path.join(os.path.dirname(r.path), f"._{uuid.UUID(int=s['leftover'])}_{os.path.basename(r.path)}")
+            with open(tmp, "w") as f:
+                json.dump(self.docs[0], f)
+            self.events["leftover_temp_file"] += 1
         audit.start(self.dir)
         self.rebase()
         self.events["removed_by_outsider"] += 1
@@ -202,6 +212,8 @@ def _gen_step(ci, dom, script=None):
                 # sessions that only read must not write anything, to any file
                 return {"t": "exit", "fault_k": draw(st.integers(1, 4))}
         if ci.backend == "json" and c == 17 and draw(st.booleans()):
+            if draw(st.booleans()):
+                return {"t": "remove", "leftover": draw(st.integers(1, 2**64))}
             return {"t": "remove"}
         if ci.backend == "json" and c == 15:
             return {"t": "reformat", "indent": draw(st.sampled_from([None, 1, 4]))}
